@@ -333,13 +333,32 @@ class FnTranslator:
             return self.num_lit(node.id == 'True')
         raise TransError('unbound name %s at line %d' % (node.id, node.lineno))
 
+    def self_path(self, node, env):
+        """dotted path of an attribute chain rooted at self (through aliases), or None"""
+        if isinstance(node, ast.Name):
+            if node.id == 'self':
+                return ''
+            b = env.get(node.id)
+            if isinstance(b, tuple) and len(b) == 2 and b[0] == 'selfpath':
+                return b[1]
+            return None
+        if isinstance(node, ast.Attribute):
+            base = self.self_path(node.value, env)
+            if base is None:
+                return None
+            return (base + '_' if base else '') + node.attr
+        return None
+
     def e_Attribute(self, node, env):
+        sp = self.self_path(node, env)
+        if sp is not None:
+            if sp in self.spec.self_attrs:
+                return Expr('self_' + sp, self.spec.self_attrs[sp])
+            raise TransError('attribute self.%s is not declared in the spec (line %d)' % (sp, node.lineno))
         if isinstance(node.value, ast.Name):
             base = node.value.id
             if base in ('math', 'np', 'numpy') and node.attr == 'pi':
                 return Expr('pi', Q, nz=True)
-            if base == 'self' and node.attr in self.spec.self_attrs:
-                return Expr('self_' + node.attr, self.spec.self_attrs[node.attr])
         raise TransError('unsupported attribute %s at line %d' % (ast.unparse(node), node.lineno))
 
     def e_Tuple(self, node, env):
@@ -516,6 +535,24 @@ class FnTranslator:
         code = parts[0] if len(parts) == 1 else '(' + ' && '.join(parts) + ')'
         return Expr(code, B, binds)
 
+    def e_ListComp(self, node, env):
+        if len(node.generators) != 1 or node.generators[0].ifs or not isinstance(node.generators[0].target, ast.Name):
+            raise TransError('unsupported comprehension at line %d' % node.lineno)
+        g = node.generators[0]
+        it = self.expr(g.iter, env)
+        if not (isinstance(it.ty, tuple) and it.ty[0] == 'list'):
+            raise TransError('comprehension over %s at line %d' % (it.ty, node.lineno))
+        env2 = dict(env)
+        env2[g.target.id] = it.ty[1]
+        body = self.expr(node.elt, env2)
+        v = vname(g.target.id)
+        if body.binds:
+            self.effect_used = True
+            t = self.fresh('l')
+            fn = '(fun %s : %s => %s)' % (v, coq_type(it.ty[1]), self.wrap_binds(body))
+            return Expr(t, L(body.ty), it.binds + [(t, 'map_res %s %s' % (fn, it.code))])
+        return Expr('(map (fun %s : %s => %s) %s)' % (v, coq_type(it.ty[1]), body.code, it.code), L(body.ty), it.binds)
+
     def e_Set(self, node, env):
         raise TransError('set literal outside `in` at line %d' % node.lineno)
 
@@ -533,10 +570,15 @@ class FnTranslator:
 
     def wrap_binds(self, e):
         """monadic term computing e (binds followed by Ok e)"""
-        code = 'Ok %s' % e.code
-        if e.binds:
+        binds = list(e.binds)
+        if binds:
             self.effect_used = True
-        for pat, m in reversed(e.binds):
+        if binds and binds[-1][0] == e.code:
+            code = '(%s)' % binds[-1][1]      # do t <- m; Ok t   ==   m
+            binds = binds[:-1]
+        else:
+            code = 'Ok %s' % e.code
+        for pat, m in reversed(binds):
             code = "(do %s <- %s; %s)" % (pat, m, code)
         return code
 
@@ -683,6 +725,10 @@ class FnTranslator:
             target = self.registry[self.spec.wrapper_of]
             argcodes = [vname(p) for p, _ in target.params]
             return self.emit_call(target, argcodes)
+        # --- methods of the same class: self.m(...)
+        if fname.startswith('self.') and self.spec.cls and (self.spec.cls + '_' + fname[5:]) in self.registry:
+            target = self.registry[self.spec.cls + '_' + fname[5:]]
+            return self.call_translated(target, node, env)
         # --- other translated functions
         short = fname.split('.')[-1]
         if short in self.registry:
@@ -770,6 +816,11 @@ class FnTranslator:
         return r
 
     def emit_call(self, target, argcodes):
+        if target.self_attrs:
+            missing = [a for a in target.self_attrs if a not in self.spec.self_attrs]
+            if missing:
+                raise TransError('call of method %s needs self attributes %s' % (target.name, missing))
+            argcodes = ['self_' + a for a in sorted(target.self_attrs)] + list(argcodes)
         call = '(%s %s)' % (target.coq_name, ' '.join(argcodes)) if argcodes else target.coq_name
         if self.ensure is not None:
             self.ensure(target)
@@ -864,8 +915,17 @@ class FnTranslator:
             targets = st.targets if isinstance(st, ast.Assign) else [st.target]
             if len(targets) != 1:
                 raise TransError('chained assignment')
+            if isinstance(targets[0], ast.Name) and self.self_path(st.value, env) is not None \
+                    and self.self_path(st.value, env) not in self.spec.self_attrs:
+                env2 = dict(env)
+                env2[targets[0].id] = ('selfpath', self.self_path(st.value, env))
+                return cont(env2)
             e = self.expr(st.value, env)
             pat, env2 = self.assign_pattern(targets[0], e, env)
+            if e.binds and e.binds[-1][0] == e.code:
+                # x = f(...) with f monadic: bind the result directly to the target pattern
+                binds = e.binds[:-1] + [(pat.lstrip("'"), e.binds[-1][1])]
+                return self.with_binds(binds, cont(env2))
             return self.with_binds(e.binds, "(let %s := %s in\n %s)" % (pat, e.code, cont(env2)))
         if isinstance(st, ast.AugAssign):
             new = ast.Assign(targets=[st.target],
@@ -1046,9 +1106,21 @@ class FnTranslator:
         if not isinstance(st.target, ast.Name):
             raise TransError('fold target at line %d' % st.lineno)
         state = sorted(v for v in may_assign(st.body) if v in env and not isinstance(env[v], Expr))
-        if not state:
-            raise TransError('loop without carried state at line %d' % st.lineno)
         elem = st.target.id
+        if not state:
+            # a loop executed for its exceptions only: fold over unit
+            if not self.monadic:
+                return self.block(rest, env, k)
+            env_in = dict(env)
+            env_in[elem] = lst.ty[1]
+            saved_k = getattr(self, 'loop_k', None)
+            self.loop_k = lambda env2: 'Ok tt'
+            body = self.block(st.body, env_in, lambda env2: 'Ok tt')
+            self.loop_k = saved_k
+            fn = "(fun (st_ : unit) (%s : %s) => %s)" % (vname(elem), coq_type(lst.ty[1]), body)
+            code = "(do _ <- fold_res %s %s tt;\n %s)" % (fn, lst.code, self.block(rest, env, k))
+            self.effect_used = True
+            return self.with_binds(lst.binds, code)
         env_in = dict(env)
         env_in[elem] = lst.ty[1]
         # learn the list element type of accumulators typed list:None from the body
@@ -1225,6 +1297,8 @@ def translate_all(repo, modules, out_dir):
                                            'error': 'signature changed: source %s vs spec %s' % (src_params, declared)})
                 continue
             spec.decos = [d for d in decorator_names(node) if d not in IGNORED_DECORATORS]
+            if spec.cls and spec.coq_name == spec.name:
+                spec.coq_name = spec.cls + '_' + spec.name
             registry[spec.coq_name if spec.cls else spec.name] = spec
             m['_specs'].append(spec)
     # decorators: the decorated function is translated as <name>_raw and the
